@@ -178,6 +178,21 @@ def nestable_family():
     return out
 
 
+def show_sem(sem):
+    """A docsem normal form printed the way extract/drv_front.ml prints a Design/Sem.v [sem]."""
+    T, fs, cs, ks = sem
+
+    def kc(k):
+        tag = k[0][0].s
+        kind = "(%s %d)" % (tag, k[0][1]) if tag in ("atmost", "atleast", "exactlyrow", "exactlyk") else "(other)"
+        return "(%s %d %d (%s))" % (kind, k[1], k[2], " ".join("(%d %d)" % tuple(w) for w in k[3]))
+    return "(%d (%s) (%s) (%s))" % (
+        T, " ".join("(%d %d %s)" % (f[0], f[1], "none" if f[2] is None else "derived") for f in fs),
+        " ".join("((%s) %d %d (%s))" % (" ".join(map(str, c[0])), c[1], c[2],
+                                        " ".join("((%s) %d)" % (" ".join(map(str, m[0])), m[1]) for m in c[3])) for c in cs),
+        " ".join(kc(k) for k in ks))
+
+
 def nestsem_observation(program):
     """(model line, expected) or None: the documented normal forms of outer block, inner block and Nest."""
     main = block_desc(program, program["main"])
@@ -188,19 +203,7 @@ def nestsem_observation(program):
     except docsem.Unsupported:
         return None
 
-    def show(sem):
-        T, fs, cs, ks = sem
-
-        def kc(k):
-            tag = k[0][0].s
-            kind = "(%s %d)" % (tag, k[0][1]) if tag in ("atmost", "atleast", "exactlyrow", "exactlyk") else "(other)"
-            return "(%s %d %d (%s))" % (kind, k[1], k[2], " ".join("(%d %d)" % tuple(w) for w in k[3]))
-        return "(%d (%s) (%s) (%s))" % (
-            T, " ".join("(%d %d %s)" % (f[0], f[1], "none" if f[2] is None else "derived") for f in fs),
-            " ".join("((%s) %d %d (%s))" % (" ".join(map(str, c[0])), c[1], c[2],
-                                            " ".join("((%s) %d)" % (" ".join(map(str, m[0])), m[1]) for m in c[3])) for c in cs),
-            " ".join(kc(k) for k in ks))
-    return "(nestsem %s %s)" % (to_wire(o.sem), to_wire(i.sem)), show(n.sem)
+    return "(nestsem %s %s)" % (to_wire(o.sem), to_wire(i.sem)), show_sem(n.sem)
 
 
 def assoc_pair(rng):
